@@ -289,7 +289,11 @@ def check_timer(sched, start, days):
     end = t0 + days * 86400
     t = t0
     while t < end:
-        VC.pump(t)
+        try:
+            VC.pump(t, max_iter=20000)
+        except RuntimeError:
+            d = datetime.datetime.utcfromtimestamp(VC.clk.now)
+            return [("timer:live-lock", "at %s the interpreter re-arms itself for the current instant over and over (20000 times): time cannot advance; schedule %r" % (d.isoformat(), sched))], n
         VC.clk.now = t
         n += 1
         d = datetime.datetime.utcfromtimestamp(t)
